@@ -49,6 +49,19 @@ class Check(HCheck):
         sp.append(Space(Cfg("never"), [al.page(u, i % 3 == 0) for i, u in enumerate(core)], 6 if thorough else 5, name="order/core"))
         ll = al.long_lrus((75, 148, 149, 3, 74, 223) if thorough else (75, 148, 149, 74, 3))
         sp.append(Space(Cfg("never"), [al.page(u, i % 2 == 0) for i, u in enumerate(ll)], 6 if thorough else 5, name="order/long"))
+        vl = [A + L.long_stem(n, f) for n, f in ((700, b"a"), (2200, b"a"), (2200, b"b"))]
+        sp.append(Space(Cfg("never"), [al.page(u, i % 2 == 0) for i, u in enumerate(vl)] + [al.page(vl[0] + b"p:k|", True), al.links((vl[1], vl[2]))], 4 if thorough else 3, name="order/very-long"))
+        # one source with 300 targets (sub-pages of the source among them), one page cited by 600
+        # sources in one batch, 40 siblings inserted in ascending order: sizes a small alphabet
+        # never reaches
+        big = [
+            al.crawl((Ab, tuple(Ab + b"p:%03d|" % i for i in range(300)) + (Az,)), (Az, (Ab,))),
+            al.crawl(*[(Az + b"p:%03d|" % i, (Ax,)) for i in range(600)]),
+            al.pages(tuple(A + b"p:s%03d|" % i for i in range(40)), True),
+            al.page(Ab, True),
+            al.page(Ax),
+        ]
+        sp.append(Space(Cfg("never"), big, 2, name="sizes/big-batches"))
         # short stems with unusual byte values, stems that are byte-prefixes of one another
         odd = [A + x for x in (b"\x00|", b"\xff\xfe|", b"p|", b"{|", b"}|", b"p:x\x00|", b"p:x|", b"p:xx|")]
         sp.append(Space(Cfg("never"), [al.page(u, i % 2 == 1) for i, u in enumerate(odd if thorough else odd[:7])], 5 if thorough else 4, name="order/bytes"))
